@@ -5,8 +5,9 @@
   Object universe `PV` = the Python values a Colang 2.x `State` can hold, one constructor per
   `isinstance` branch of `encode_to_dict` (in the order of the Python `if/elif` chain):
 
-      list | str/int/float/None (bool ⊂ int) | functools.partial | dict | dataclass | RailsConfig
-      | SpecType | Action | datetime | Enum | deque | tuple | set | anything else (raises)
+      list | str/int/float/None (bool ⊂ int) | functools.partial | dict (string keys: JSON object;
+      otherwise an item list, repair d13eeb5) | dataclass | RailsConfig | SpecType | Action | datetime
+      | Enum | deque | tuple | set | re.Pattern (repair d13eeb5) | anything else (raises)
 
   `J` = the JSON value type.  `json.dumps ∘ json.loads` is the identity on `J`; what `json.dumps` does
   *on the way in* is modelled where it happens: dict keys are stringified (`keyStr`: `1 ↦ "1"`,
@@ -27,13 +28,23 @@ import NemoVerif.Generated.C11
 
 namespace NemoVerif.Serialize
 
-/-- Python dict keys as far as `json.dumps` distinguishes them. -/
+/-- members of a tuple used as a dict key -/
+inductive Atom where
+  | none
+  | bool (b : Bool)
+  | int (i : Int)
+  | str (s : String)
+  deriving DecidableEq, Repr, Inhabited
+
+/-- Python dict keys: the hashable scalars and flat tuples of them (float keys and nested tuples are
+    outside the model). `json.dumps` stringifies the scalars and rejects tuples (`keyStr`); since the
+    repair d13eeb5 `encode_to_dict` no longer sends non-string keys through JSON object keys. -/
 inductive Key where
   | none
   | bool (b : Bool)
   | int (i : Int)
   | str (s : String)
-  | tuple            -- any key `json.dumps` rejects (tuple, frozenset, …)
+  | tuple (xs : List Atom)
   deriving DecidableEq, Repr, Inhabited
 
 inductive PV where
@@ -55,7 +66,7 @@ inductive PV where
   | action : String → String → Option String → String → PV → PV → Int → PV
       -- uid, name, flow_uid, status name, context, start_event_arguments, flow_scope_count
   | partialFn : PV                       -- functools.partial (head callbacks)
-  | regex : Nat → PV                     -- re.Pattern
+  | regex : String → Int → PV            -- re.Pattern: pattern, flags
   | cmp : PV                             -- eval.ComparisonExpression
   | other : String → PV                  -- any other class
   deriving Repr, Inhabited
@@ -86,9 +97,74 @@ def keyStr : Key → Except Err String
   | .bool false => .ok "false"
   | .int i => .ok (toString i)
   | .str s => .ok s
-  | .tuple => .error .typeError
+  | .tuple _ => .error .typeError
 
 def wrap (t : String) (v : J) : J := .obj [("__type", .str t), ("value", v)]
+
+def Atom.toJ : Atom → J
+  | .none => .null
+  | .bool b => .bool b
+  | .int i => .int i
+  | .str s => .str s
+
+def Atom.toPV : Atom → PV
+  | .none => .none
+  | .bool b => .bool b
+  | .int i => .int i
+  | .str s => .str s
+
+/-- the key as a Python value (what `encode_to_dict(k, refs)` is called with) -/
+def Key.toPV : Key → PV
+  | .none => .none
+  | .bool b => .bool b
+  | .int i => .int i
+  | .str s => .str s
+  | .tuple xs => .tuple (xs.map Atom.toPV)
+
+/-- `encode_to_dict(k, refs)` for a key (`encodeKey_spec`: equals `encode k.toPV`) -/
+def encodeKey : Key → J
+  | .none => .null
+  | .bool b => .bool b
+  | .int i => .int i
+  | .str s => .str s
+  | .tuple xs => wrap "tuple" (.arr (xs.map Atom.toJ))
+
+def atomOfPV : PV → Option Atom
+  | .none => some .none
+  | .bool b => some (.bool b)
+  | .int i => some (.int i)
+  | .str s => some (.str s)
+  | _ => none
+
+def atomsOfPVs : List PV → Option (List Atom)
+  | [] => some []
+  | x :: xs => match atomOfPV x, atomsOfPVs xs with
+    | some a, some as => some (a :: as)
+    | _, _ => none
+
+/-- using a decoded value as a dict key: unhashable values raise `TypeError` -/
+def keyOfPV : PV → Except Err Key
+  | .none => .ok .none
+  | .bool b => .ok (.bool b)
+  | .int i => .ok (.int i)
+  | .str s => .ok (.str s)
+  | .tuple xs => match atomsOfPVs xs with
+    | some as => .ok (.tuple as)
+    | none => .error .typeError
+  | _ => .error .typeError
+
+def Key.isStr : Key → Bool
+  | .str _ => true
+  | _ => false
+
+def keyName : Key → String
+  | .str s => s
+  | _ => ""
+
+/-- `all(isinstance(k, str) for k in obj)` -/
+def allStr : List (Key × PV) → Bool
+  | [] => true
+  | (k, _) :: rest => k.isStr && allStr rest
 
 def optStrJ : Option String → J
   | some s => .str s
@@ -128,7 +204,9 @@ def encode : PV → Except Err J
   | .flt m e => .ok (.flt m e)
   | .none => .ok .null
   | .partialFn => .ok .null
-  | .dict kvs => do let o ← encodeKvs kvs; pure (wrap "dict" (.obj o))
+  | .dict kvs =>
+      if allStr kvs then do let o ← encodeVals kvs; pure (wrap "dict" (.obj o))
+      else do let items ← encodeItems kvs; pure (.obj [("__type", .str "dict"), ("items", .arr items)])
   | .data cls kvs => do let o ← encodeKvs kvs; pure (wrap cls (.obj o))
   | .railsConfig kvs => do let o ← encodeKvs kvs; pure (wrap "RailsConfig" (.obj o))
   | .specType v => .ok (wrap "SpecType" (.str v))
@@ -142,7 +220,7 @@ def encode : PV → Except Err J
   | .deque xs => do let ys ← encodeList xs; pure (wrap "deque" (.arr ys))
   | .tuple xs => do let ys ← encodeList xs; pure (wrap "tuple" (.arr ys))
   | .set xs => do let ys ← encodeList xs; pure (wrap "set" (.arr ys))
-  | .regex _ => .error (.unhandledType "re.Pattern")
+  | .regex p f => .ok (.obj [("__type", .str "regex"), ("pattern", .str p), ("flags", .int f)])
   | .cmp => .error (.unhandledType "ComparisonExpression")
   | .other c => .error (.unhandledType c)
 def encodeList : List PV → Except Err (List J)
@@ -155,6 +233,20 @@ def encodeKvs : List (Key × PV) → Except Err (List (String × J))
       let ks ← keyStr k
       let ys ← encodeKvs rest
       pure ((ks, y) :: ys)
+/-- `{k: encode_to_dict(v, refs) for k, v in obj.items()}` when every key is a string -/
+def encodeVals : List (Key × PV) → Except Err (List (String × J))
+  | [] => .ok []
+  | (k, v) :: rest => do
+      let y ← encode v
+      let ys ← encodeVals rest
+      pure ((keyName k, y) :: ys)
+/-- `[[encode_to_dict(k, refs), encode_to_dict(v, refs)] for k, v in obj.items()]` -/
+def encodeItems : List (Key × PV) → Except Err (List J)
+  | [] => .ok []
+  | (k, v) :: rest => do
+      let y ← encode v
+      let ys ← encodeItems rest
+      pure (.arr [encodeKey k, y] :: ys)
 end
 
 /-! ### `decode_from_dict` (after `json.loads`) -/
@@ -168,6 +260,15 @@ def strField (k : String) : List (String × J) → Except Err String
   | [] => .error .keyError
   | (k', v) :: rest => if k' = k then (match v with | .str s => .ok s | _ => .error .typeError) else strField k rest
 
+def intField (k : String) : List (String × J) → Except Err Int
+  | [] => .error .keyError
+  | (k', v) :: rest => if k' = k then (match v with | .int i => .ok i | _ => .error .typeError) else intField k rest
+
+/-- `"items" in d` -/
+def hasKey (k : String) : List (String × J) → Bool
+  | [] => false
+  | (k', _) :: rest => k' == k || hasKey k rest
+
 def natField (k : String) : List (String × J) → Option Nat
   | [] => none
   | (k', v) :: rest => if k' = k then (match v with | .int i => some i.toNat | _ => none) else natField k rest
@@ -175,10 +276,6 @@ def natField (k : String) : List (String × J) → Option Nat
 def lookupPV (k : String) : List (Key × PV) → Except Err PV
   | [] => .error .keyError
   | (k', v) :: rest => if k' = Key.str k then .ok v else lookupPV k rest
-
-def keyName : Key → String
-  | .str s => s
-  | _ => ""
 
 /-- `k[0] == "_"` -/
 def isPrivate (k : String) : Bool := k.toList.head? == some '_'
@@ -257,7 +354,13 @@ def decode : J → Except Err PV
         match ← decodeAtValue kvs with
         | .list xs => pure (.tuple xs)
         | _ => .error .typeError
-      else if t = "dict" then do let o ← decodeItemsAtValue kvs; pure (.dict o)
+      else if t = "dict" then
+        if hasKey "items" kvs then do let o ← decodePairsAtItems kvs; pure (.dict o)
+        else do let o ← decodeItemsAtValue kvs; pure (.dict o)
+      else if t = "regex" then do
+        let p ← strField "pattern" kvs
+        let f ← intField "flags" kvs
+        pure (.regex p f)
       else if t = "set" then do
         match ← decodeAtValue kvs with
         | .list xs => pure (.set xs)
@@ -283,16 +386,32 @@ def decodeItemsAtValue : List (String × J) → Except Err (List (Key × PV))
       | .obj inner => decodePlain inner
       | _ => .error .typeError
     else decodeItemsAtValue rest
+/-- `{decode_from_dict(k): decode_from_dict(v) for k, v in d["items"]}` -/
+def decodePairsAtItems : List (String × J) → Except Err (List (Key × PV))
+  | [] => .error .keyError
+  | (k, v) :: rest =>
+    if k = "items" then
+      match v with
+      | .arr items => decodePairs items
+      | _ => .error .typeError
+    else decodePairsAtItems rest
+def decodePairs : List J → Except Err (List (Key × PV))
+  | [] => .ok []
+  | p :: rest =>
+    match p with
+    | .arr [kj, vj] => do
+      let kp ← decode kj
+      let k ← keyOfPV kp
+      let v ← decode vj
+      let r ← decodePairs rest
+      pure ((k, v) :: r)
+    | _ => .error .typeError
 end
 
 /-! ### The values the encoder accepts (`EncShape`) and the ones it also gives back (`Encodable`) -/
 
-def Key.isStr : Key → Bool
-  | .str _ => true
-  | _ => false
-
 def Key.dumpable : Key → Bool
-  | .tuple => false
+  | .tuple _ => false
   | _ => true
 
 mutual
@@ -333,15 +452,20 @@ def EncShape : PV → Bool
   | .none | .bool _ | .int _ | .flt _ _ | .str _ | .partialFn => true
   | .specType _ | .datetime _ | .enum _ _ => true
   | .list xs | .tuple xs | .set xs | .deque xs => EncShapeList xs
-  | .dict kvs | .data _ kvs | .railsConfig kvs => EncShapeKvs kvs
+  | .dict kvs => EncShapeVals kvs
+  | .data _ kvs | .railsConfig kvs => EncShapeKvs kvs
   | .action _ _ _ _ ctx args _ => RawShape ctx && RawShape args
-  | .regex _ | .cmp | .other _ => false
+  | .regex _ _ => true
+  | .cmp | .other _ => false
 def EncShapeList : List PV → Bool
   | [] => true
   | x :: xs => EncShape x && EncShapeList xs
 def EncShapeKvs : List (Key × PV) → Bool
   | [] => true
   | (k, v) :: rest => EncShape v && k.dumpable && EncShapeKvs rest
+def EncShapeVals : List (Key × PV) → Bool
+  | [] => true
+  | (_, v) :: rest => EncShape v && EncShapeVals rest
 end
 
 def reservedTags : List String := ["ref", "enum", "RailsConfig", "SpecType", "Action"]
@@ -361,18 +485,23 @@ def Encodable : PV → Bool
   | .specType v => NemoVerif.Generated.C11.specTypeValues.contains v
   | .enum cls name => enumOk cls name
   | .list xs | .tuple xs | .set xs | .deque xs => EncodableList xs
-  | .dict kvs | .railsConfig kvs => EncodableKvs kvs
+  | .dict kvs => EncodableVals kvs
+  | .railsConfig kvs => EncodableKvs kvs
+  | .regex _ _ => true
   | .data cls kvs =>
       EncodableKvs kvs && noTypeKey kvs && isDataclassName cls && !reservedTags.contains cls
         && ctorOk cls (kvs.map fun kv => keyName kv.1)
   | .action _ _ _ st ctx args _ => RawOk ctx && RawOk args && enumOk "ActionStatus" st
-  | .partialFn | .regex _ | .cmp | .other _ => false
+  | .partialFn | .cmp | .other _ => false
 def EncodableList : List PV → Bool
   | [] => true
   | x :: xs => Encodable x && EncodableList xs
 def EncodableKvs : List (Key × PV) → Bool
   | [] => true
   | (k, v) :: rest => Encodable v && k.isStr && EncodableKvs rest
+def EncodableVals : List (Key × PV) → Bool
+  | [] => true
+  | (_, v) :: rest => Encodable v && EncodableVals rest
 end
 
 
@@ -385,7 +514,7 @@ def normKey : Key → Key
   | .bool false => .str "false"
   | .int i => .str (toString i)
   | .str s => .str s
-  | .tuple => .tuple
+  | .tuple xs => .tuple xs
 
 mutual
 /-- raw `Action.to_dict()` payload after the JSON round trip: tuples are lists, keys are strings -/
@@ -411,7 +540,7 @@ def norm : PV → PV
   | .tuple xs => .tuple (normList xs)
   | .set xs => .set (normList xs)
   | .deque xs => .deque (normList xs)
-  | .dict kvs => .dict (normKvs kvs)
+  | .dict kvs => .dict (normVals kvs)
   | .data cls kvs => .data cls (normKvs kvs)
   | .railsConfig kvs => .railsConfig (normKvs kvs)
   | .action uid name fu st ctx args sc => .action uid name fu st (rawNorm ctx) (rawNorm args) sc
@@ -422,6 +551,9 @@ def normList : List PV → List PV
 def normKvs : List (Key × PV) → List (Key × PV)
   | [] => []
   | (k, v) :: rest => (normKey k, norm v) :: normKvs rest
+def normVals : List (Key × PV) → List (Key × PV)
+  | [] => []
+  | (k, v) :: rest => (k, norm v) :: normVals rest
 end
 
 /-- the key is accepted by `json.dumps` and does not read `"__type"` afterwards -/
@@ -457,18 +589,23 @@ def Decodable : PV → Bool
   | .specType v => NemoVerif.Generated.C11.specTypeValues.contains v
   | .enum cls name => enumOk cls name
   | .list xs | .tuple xs | .set xs | .deque xs => DecodableList xs
-  | .dict kvs | .railsConfig kvs => DecodableKvs kvs
+  | .dict kvs => DecodableVals kvs
+  | .railsConfig kvs => DecodableKvs kvs
+  | .regex _ _ => true
   | .data cls kvs =>
       DecodableKvs kvs && plainKeys kvs && isDataclassName cls && !reservedTags.contains cls
         && ctorOk cls ((normKvs kvs).map fun kv => keyName kv.1)
   | .action _ _ _ st ctx args _ => RawPlain ctx && RawPlain args && enumOk "ActionStatus" st
-  | .regex _ | .cmp | .other _ => false
+  | .cmp | .other _ => false
 def DecodableList : List PV → Bool
   | [] => true
   | x :: xs => Decodable x && DecodableList xs
 def DecodableKvs : List (Key × PV) → Bool
   | [] => true
   | (k, v) :: rest => Decodable v && k.dumpable && DecodableKvs rest
+def DecodableVals : List (Key × PV) → Bool
+  | [] => true
+  | (_, v) :: rest => Decodable v && DecodableVals rest
 end
 
 
